@@ -279,6 +279,7 @@ BORROWING = ("iter", "iter_ref", "drain", "iter_mut", "iter_mut_ref")
 CONSUMING = ("into_iter", "sorted")
 ADAPTORS_DX = ["rev", "take", "skip", "enumerate", "zip", "peekable", "fuse", "step_by", "chain", "rev_take",
                "take_rev", "skip_rev"]
+NMETHODS = 17      # harness q::METHODS
 ADAPTORS_FWD = ["take", "skip", "enumerate", "zip", "peekable", "fuse", "step_by", "chain"]
 
 
@@ -361,6 +362,12 @@ def engine_C(name, kinds, iters, sizes, depth, adaptors=True, forget=True, wd_na
                     # the model's sequences over the extended alphabet ([code, k] pairs), padded with next calls
                     for cs in xseqs[(impl, n)]:
                         probes.append([{"op": opn, "it": it, "calls": [list(c) for c in cs] + [3, 0, 0]}])
+                    # every provided method (call code [20, m], harness q::METHODS) after every consumed prefix
+                    for m in range(0, n + 1):
+                        for mi in range(NMETHODS):
+                            probes.append([{"op": opn, "it": it, "calls": [0] * m + [[20, mi], 3, 0]}])
+                            if not is_fwd(kind, it) and m > 0:
+                                probes.append([{"op": opn, "it": it, "calls": [1] * m + [[20, mi], 3, 0]}])
                     # (8 fold, 9 rfold, 10 for_each: internal iteration, which must agree with stepping)
                     for m in range(0, n + 1):
                         for fin in ([6], [7], [[4, 0]], [[4, 1]], [[4, n]], [8], [10]) + (() if is_fwd(kind, it) else ([9],)):
@@ -381,7 +388,8 @@ def engine_C(name, kinds, iters, sizes, depth, adaptors=True, forget=True, wd_na
                                 if ad in ("enumerate", "zip", "peekable", "fuse", "chain", "rev") and k != 0:
                                     continue
                                 for cs in ([2], [3], [0, 2, 3], [1, 2, 3, 0], [2, 0, 0, 2],
-                                           [6], [7], [8], [9], [10], [0, 9], [1, 8], [1, 6], [0, 1, 7]):
+                                           [6], [7], [8], [9], [10], [0, 9], [1, 8], [1, 6], [0, 1, 7],
+                                           [[20, 0]], [[20, 1]], [[20, 3]], [[20, 7]], [[20, 12]], [0, [20, 14]], [[20, 15]]):
                                     if is_fwd(kind, it) and (1 in cs or 2 in cs or 9 in cs):
                                         cs = [c for c in cs if c not in (1, 2, 9)] or [3]
                                     probes.append([{"op": opn, "it": it, "adapt": ad, "k": k, "calls": cs + [0] * (n + 2)}])
